@@ -95,7 +95,11 @@ class TableEntry (object):
     port_matches = (out_port is None) or any(match_a(a) for a in self.actions)
 
     if strict:
-      return port_matches and self.match == match and self.priority == priority
+      # Identical means matching the same packets: each match must encompass
+      # the other (bits of an address beyond its prefix don't count)
+      return port_matches and self.priority == priority \
+             and match.matches_with_wildcards(self.match) \
+             and self.match.matches_with_wildcards(match)
     else:
       return port_matches and match.matches_with_wildcards(self.match)
 
